@@ -21,8 +21,10 @@ RULE = (
     'value (0, false, none). Round 4: values assigned by reference to a helper node (also 0 / false), integers '
     'beyond 2**53, an earlier parse that defined the custom unit differently. Later rounds: definitions through a '
     'sliced reference followed by plain re-assignments; declared constants. Round 7: assigned values given by '
-    'an expression ("A u - K u") u or a logical expression, in typed and untyped modifications, zero and '
-    'false results included. Distinct = distinct rendered text.'
+    'expressions in typed and untyped modifications, zero and false results included. Round 8: units assigned to '
+    'unit-less nodes (% converts, cm is refused); !constant below a modification; exact comparison of unconverted '
+    'float literals; units of another dimension written with the same symbols; integer arrays; the empty string; '
+    'a refusal has to come from parse(), not from data(). Distinct = distinct rendered text.'
 )
 ASSUMPTIONS = [
     "integer nodes only receive values whose conversion into the definition unit is an exact integer",
